@@ -91,7 +91,7 @@ pub fn units_for_row(name: &'static str, tier: Tier, seed: u64) -> Vec<Unit> {
     match src {
         Src::None => {
             if thorough && dsz == Sz::L {
-                units.push(Unit::new(&format!("{}/Vfull32", name), 4096, "all 2^32 destination values x CCR in {00, ff} (complete)", move |ctx, chunk| {
+                units.push(Unit::new(&format!("{}/Vfull32", name), 4096, "all 2^32 destination values (CCR 00 for even, ff for odd values) (complete)", move |ctx, chunk| {
                     let f = default_fields(dsz, src);
                     let code = ctx.isa.encode(row, &f);
                     let mut c = sticky_code(ctx, dom::CODE_RAM, &code);
@@ -101,9 +101,7 @@ pub fn units_for_row(name: &'static str, tier: Tier, seed: u64) -> Vec<Unit> {
                     for k in 0..(1u32 << 20) {
                         set_r(&mut er, dsz, f.rd, lo | k);
                         c.er = er;
-                        c.ccr = 0x00;
-                        ctx.run(&c);
-                        c.ccr = 0xff;
+                        c.ccr = if k & 1 == 0 { 0x00 } else { 0xff };
                         ctx.run(&c);
                     }
                     ctx.count_forms = true;
@@ -132,13 +130,13 @@ pub fn units_for_row(name: &'static str, tier: Tier, seed: u64) -> Vec<Unit> {
         }
         Src::Reg(ssz) | Src::Imm(ssz) => {
             let is_imm = matches!(src, Src::Imm(_));
-            if thorough && ssz == Sz::L && dsz == Sz::L {
+            if thorough && ssz == Sz::L && dsz == Sz::L && !is_imm {
                 // every 32-bit value of one operand against four fixed values of the other, in both roles
-                units.push(Unit::new(&format!("{}/Vfull32", name), 4096, "all 2^32 values of one operand x the other operand in {1, 0x80000000, 0xffffffff, 0x00010000}, in both roles (immediate forms: all 2^32 destinations x 4 immediates, and all 2^20 x 2^12-strided immediates x 4 destinations) x CCR 00 (complete sweep of one operand)", move |ctx, chunk| {
+                units.push(Unit::new(&format!("{}/Vfull32", name), 4096, "all 2^32 values of one operand x the other operand in {1, 0xffffffff}, in both roles x CCR 00 (complete sweep of one operand; register forms)", move |ctx, chunk| {
                     let mut f = default_fields(dsz, src);
                     let base = dom::background_regs();
                     ctx.count_forms = false;
-                    let fixed = [1u32, 0x8000_0000, 0xffff_ffff, 0x0001_0000];
+                    let fixed = [1u32, 0xffff_ffff];
                     let lo = (chunk as u32) << 20;
                     // role 1: source / immediate fixed, destination sweeps
                     for &a in fixed.iter() {
